@@ -10,6 +10,10 @@
 //     intervals dropped) as the flag filtration of the input graph, over Z_2 and over Z_3.
 // Oracle: brute-force clique enumeration (oracle/flag.h for <= 10 vertices, cross-checked with the recursive enumerator
 // below which is used for the big graphs) + textbook column reduction (oracle/zp_reduce.h).  No GUDHI code.
+// For the mid-size dense graphs (12..40 vertices, mid_case) the enumeration stops at the (D+1)-skeleton and only H_0..H_D are
+// compared (D = 2, or 1 from 23 vertices on).
+// Value types: double / float, and the integral types int / short / unsigned / long (weights scaled to integers).  Call shapes:
+// see Driver.  Inputs never contain a loop or the same edge twice (the Python docstring of reduce_graph calls both undefined).
 #ifndef VERIF_C12_COMMON_H_
 #define VERIF_C12_COMMON_H_
 
@@ -19,9 +23,14 @@
 #include "oracle/zp_reduce.h"
 #include "oracle/flag.h"
 
+#include <boost/range/adaptor/transformed.hpp>
+#include <boost/range/irange.hpp>
+
 #include <list>
 #include <deque>
 #include <cmath>
+#include <cfloat>
+#include <type_traits>
 
 #ifndef C12_BUILD_NAME
 #define C12_BUILD_NAME "unnamed"
@@ -52,8 +61,9 @@ struct Graph {
 
 // ------------------------------------------------------------------ independent clique enumerator (any size)
 // every clique {v0 < v1 < ...}: value = max over its vertices and edges.  Returns false when more than cap simplices.
+// max_size > 0: only the cliques with at most max_size vertices (a skeleton of the flag complex).
 inline bool cliques_rec(const Graph& g, Simplex& cur, double val, const std::vector<int>& cand,
-                        std::map<Simplex, double>& cx, size_t cap) {
+                        std::map<Simplex, double>& cx, size_t cap, int max_size = -1) {
   for (size_t a = 0; a < cand.size(); ++a) {
     int c = cand[a];
     double v = std::max(val, g.vval[c]);
@@ -61,42 +71,52 @@ inline bool cliques_rec(const Graph& g, Simplex& cur, double val, const std::vec
     cur.push_back(c);
     cx[cur] = v;
     if (cx.size() > cap) return false;
-    std::vector<int> nc;
-    for (size_t b = a + 1; b < cand.size(); ++b) if (g.has(c, cand[b])) nc.push_back(cand[b]);
-    if (!nc.empty() && !cliques_rec(g, cur, v, nc, cx, cap)) return false;
+    if (max_size < 0 || (int)cur.size() < max_size) {
+      std::vector<int> nc;
+      for (size_t b = a + 1; b < cand.size(); ++b) if (g.has(c, cand[b])) nc.push_back(cand[b]);
+      if (!nc.empty() && !cliques_rec(g, cur, v, nc, cx, cap, max_size)) return false;
+    }
     cur.pop_back();
   }
   return true;
 }
-inline bool clique_complex(const Graph& g, std::map<Simplex, double>& cx, size_t cap) {
+inline bool clique_complex(const Graph& g, std::map<Simplex, double>& cx, size_t cap, int max_size = -1) {
   cx.clear();
   std::vector<int> all; for (int i = 0; i < g.n; ++i) all.push_back(i);
   Simplex cur;
-  return cliques_rec(g, cur, -std::numeric_limits<double>::infinity(), all, cx, cap);
+  return cliques_rec(g, cur, -std::numeric_limits<double>::infinity(), all, cx, cap, max_size);
 }
 
 struct Diagrams { std::vector<Interval> d2, d3; int clique = 0; size_t nsimplices = 0; };
 
-inline void diagrams_of_complex(const std::map<Simplex, double>& cx, Diagrams& D) {
+// max_dim >= 0: cx is the (max_dim+1)-skeleton of a flag complex; its persistence in dimensions 0..max_dim is that of the whole
+// flag complex, the intervals of dimension max_dim+1 are an artefact of the truncation and are dropped.
+inline void keep_dims_up_to(std::vector<Interval>& d, int max_dim) {
+  std::vector<Interval> k; for (auto& iv : d) if (iv.dim <= max_dim) k.push_back(iv);
+  d.swap(k);
+}
+inline void diagrams_of_complex(const std::map<Simplex, double>& cx, Diagrams& D, int max_dim = -1) {
   std::vector<Simplex> order = oracle::filtration_order(cx);
   std::vector<double> vals; for (auto& s : order) vals.push_back(cx.at(s));
   std::vector<oracle::Cell> cells = oracle::cells_from_simplices(order);
   D.d2 = oracle::diagram(oracle::reduce(cells, 2).bars, vals, true);
   D.d3 = oracle::diagram(oracle::reduce(cells, 3).bars, vals, true);
+  if (max_dim >= 0) { keep_dims_up_to(D.d2, max_dim); keep_dims_up_to(D.d3, max_dim); }
   D.clique = 0; for (auto& s : order) D.clique = std::max(D.clique, (int)s.size());
   D.nsimplices = order.size();
 }
 
 // returns false if the complex is too large (big configs only), "mismatch" is set when the two enumerators disagree
-inline bool diagrams_of_graph(const Graph& g, Diagrams& D, size_t cap, bool* enumerators_agree) {
+// max_dim >= 0: only H_0..H_max_dim, from the (max_dim+1)-skeleton
+inline bool diagrams_of_graph(const Graph& g, Diagrams& D, size_t cap, bool* enumerators_agree, int max_dim = -1) {
   std::map<Simplex, double> cx;
-  if (!clique_complex(g, cx, cap)) return false;
+  if (!clique_complex(g, cx, cap, max_dim >= 0 ? max_dim + 2 : -1)) return false;
   if (g.n <= 10 && enumerators_agree) {
     oracle::WGraph wg = oracle::make_graph(g.n);
     wg.vval = g.vval; wg.w = g.w;
     *enumerators_agree = (oracle::flag_complex(wg, -1) == cx);
   }
-  diagrams_of_complex(cx, D);
+  diagrams_of_complex(cx, D, max_dim);
   return true;
 }
 
@@ -184,7 +204,7 @@ const char* const kKinds[] = {"complete_wide", "complete_ties", "all_equal", "sp
                               "cross_polytope", "cycle_chords", "vertex_driven", "tiny"};
 const int kNumKinds = 10;
 
-inline void gen_small(vh::Rng& r, Graph& g, int max_n) {
+inline void gen_small(vh::Rng& r, Graph& g, int max_n, bool allow_inf = true) {
   // kinds that tend to produce delayed (value-raised) edges are drawn more often
   static const int kKindWeight[kNumKinds] = {3, 3, 1, 3, 3, 2, 3, 1, 1, 1};
   int tot = 0; for (int w : kKindWeight) tot += w;
@@ -211,7 +231,7 @@ inline void gen_small(vh::Rng& r, Graph& g, int max_n) {
     default: if (r.chance(1, 2)) gen_complete(r, g, random_weights(r)); else gen_sparse(r, g, random_weights(r), 1, 2); break;
   }
   // now and then some edges only appear "at infinity"
-  if (r.chance(1, 12)) {
+  if (r.chance(1, 12) && allow_inf) {
     g.has_inf = true;
     for (int i = 0; i < g.n; ++i) for (int j = i + 1; j < g.n; ++j) if (g.has(i, j) && r.chance(1, 5)) g.set(i, j, std::numeric_limits<double>::infinity());
   }
@@ -236,10 +256,101 @@ inline int assign_vertex_values(vh::Rng& r, Graph& g) {
   return mode;
 }
 
+// ------------------------------------------------------------------ value types
+template <class T> struct TypeName;
+template <> struct TypeName<float> { static const char* get() { return "float"; } };
+template <> struct TypeName<double> { static const char* get() { return "double"; } };
+template <> struct TypeName<short> { static const char* get() { return "short"; } };
+template <> struct TypeName<int> { static const char* get() { return "int"; } };
+template <> struct TypeName<unsigned> { static const char* get() { return "unsigned"; } };
+template <> struct TypeName<long> { static const char* get() { return "long"; } };
+
+// signature prefix.  Floating-point value types keep the historical form (known findings are keyed on it), integral value
+// types (a class of its own: numeric_limits<Filt>::infinity() is 0 for them) are named.
+template <class Filt>
+inline std::string sig_base(const char* vtype, bool ties) {
+  std::string s = std::string("vtype=") + vtype;
+  if (std::is_integral<Filt>::value) s += std::string(",ftype=") + TypeName<Filt>::get() + ",integral_values";
+  return s + ",ties=" + (ties ? "1" : "0");
+}
+
+// Makes every weight of g exactly representable in Filt (the function does no arithmetic on the values, so they come back
+// unchanged or replaced by another input value).  Integral Filt: the generators produce multiples of 1/4 -> multiply by 4;
+// unsigned: translate so that every weight is >= 0.  Floating Filt: round to Filt (a no-op for the dyadic generators).
+template <class Filt>
+inline void fit_weights(Graph& g) {
+  const double inf = std::numeric_limits<double>::infinity();
+  if (std::is_integral<Filt>::value) {
+    double mn = inf;
+    for (int i = 0; i < g.n; ++i) for (int j = i + 1; j < g.n; ++j) if (g.has(i, j)) mn = std::min(mn, 4.0 * g.w[i][j]);
+    double off = (std::is_unsigned<Filt>::value && mn < 0) ? -mn : 0.0;
+    for (int i = 0; i < g.n; ++i) for (int j = i + 1; j < g.n; ++j) if (g.has(i, j)) g.set(i, j, 4.0 * g.w[i][j] + off);
+  } else {
+    for (int i = 0; i < g.n; ++i) for (int j = i + 1; j < g.n; ++j) if (g.has(i, j)) g.set(i, j, (double)(Filt)g.w[i][j]);
+  }
+}
+
+// ------------------------------------------------------------------ special floating-point weights (double configs)
+// The function only compares values, so nothing in the property text excludes these: -inf, +-0.0 mixed, +-DBL_MAX, denormals,
+// reals that are not dyadic.  The structure of g is kept, the weights are redrawn.
+const char* const kSpecialKinds[] = {"neg_inf", "signed_zeros", "huge_tiny", "non_dyadic", "mixed"};
+inline int respecialize(vh::Rng& r, Graph& g) {
+  const double inf = std::numeric_limits<double>::infinity();
+  int cls = (int)r.below(5);
+  static const std::vector<double> zeros = {0.0, -0.0};
+  static const std::vector<double> zeros_pm = {0.0, -0.0, 0.0, -0.0, 1.0, -1.0};
+  static const std::vector<double> huge = {DBL_MAX, -DBL_MAX, DBL_MIN, -DBL_MIN, DBL_TRUE_MIN, -DBL_TRUE_MIN, 2 * DBL_TRUE_MIN, 0.0, -0.0};
+  static const std::vector<double> nd = {0.1, 0.2, 0.30000000000000004, 0.3, 1.0 / 3, 2.0 / 3, -0.1, 0.7};
+  static const std::vector<double> mixed = {-inf, inf, 0.0, -0.0, DBL_MAX, -DBL_MAX, 0.1, 0.30000000000000004, 0.3, DBL_TRUE_MIN, 1.0, -1.0};
+  const unsigned keep = (unsigned)r.below(3);  // 0: every weight redrawn; 1, 2: one third / two thirds keep their dyadic value
+  const bool reals = r.chance(1, 2);
+  for (int i = 0; i < g.n; ++i) for (int j = i + 1; j < g.n; ++j) if (g.has(i, j)) {
+    if (cls != 1 && r.below(3) < keep) continue;
+    double v;
+    switch (cls) {
+      case 0: v = r.chance(1, 3) ? -inf : (r.chance(1, 6) ? -DBL_MAX : g.w[i][j]); break;
+      case 1: v = keep == 0 ? r.pick(zeros) : r.pick(zeros_pm); break;
+      case 2: v = r.pick(huge); break;
+      case 3: v = reals && r.chance(1, 2) ? 6.0 * r.unit() - 3.0 : r.pick(nd); break;
+      default: v = r.pick(mixed); break;
+    }
+    g.set(i, j, v);
+  }
+  g.has_inf = false;
+  for (int i = 0; i < g.n; ++i) for (int j = i + 1; j < g.n; ++j) if (g.has(i, j) && g.w[i][j] == inf) g.has_inf = true;
+  return cls;
+}
+inline void count_special_weights(vh::Case& c, const Graph& g) {
+  const double inf = std::numeric_limits<double>::infinity();
+  size_t ninf = 0, pz = 0, nz = 0, hg = 0, den = 0, ndy = 0;
+  for (int i = 0; i < g.n; ++i) for (int j = i + 1; j < g.n; ++j) if (g.has(i, j)) {
+    double v = g.w[i][j];
+    if (v == -inf) ++ninf;
+    else if (v == 0.0) { if (std::signbit(v)) ++nz; else ++pz; }
+    else if (std::fabs(v) == DBL_MAX) ++hg;
+    else if (std::fabs(v) < DBL_MIN) ++den;
+    else if (v != inf && v * 4.0 != std::floor(v * 4.0)) ++ndy;
+  }
+  if (ninf) { c.count("weights.neg_inf", ninf); c.count("case.with_neg_inf_edges"); }
+  if (pz && nz) c.count("case.with_mixed_signed_zeros");
+  if (hg) { c.count("weights.dbl_max", hg); c.count("case.with_dbl_max_edges"); }
+  if (den) c.count("weights.denormal", den);
+  if (ndy) { c.count("weights.non_dyadic", ndy); c.count("case.with_non_dyadic_edges"); }
+}
+
+#ifdef GUDHI_COLLAPSE_USE_DENSE_ARRAY
+const bool kDenseBuild = true;
+#else
+const bool kDenseBuild = false;
+#endif
+
 // ------------------------------------------------------------------ one call of the function under test
 struct CallStats { size_t in = 0, out = 0, delayed = 0, removed = 0; };
 
-template <class Vertex, class Filt>
+// Ext = false: the documented one-argument overload on lvalue vector / list / deque.  Ext = true: also the call shapes of the
+// Python binding, of Simplex_tree_interface and of the utilities (each shape is one more instantiation of the sorter and of the
+// collapser, hence only in a few configs).
+template <class Vertex, class Filt, bool Ext = false>
 struct Driver {
   typedef std::tuple<Vertex, Vertex, Filt> FE;
 
@@ -266,12 +377,35 @@ struct Driver {
     for (int i = 0; i < g.n; ++i) inv[(size_t)label[i]] = i;
 
     std::vector<FE> out;
-    unsigned cont = (unsigned)r.below(4);
-    if (cont == 0 || cont == 3) { const std::vector<FE>& cin = in; out = Gudhi::collapse::flag_complex_collapse_edges(cin); c.count("container.vector"); }
-    else if (cont == 1) { std::list<FE> l(in.begin(), in.end()); out = Gudhi::collapse::flag_complex_collapse_edges(l); c.count("container.list"); }
-    else { std::deque<FE> d(in.begin(), in.end()); out = Gudhi::collapse::flag_complex_collapse_edges(d); c.count("container.deque"); }
+    unsigned cont = (unsigned)r.below(Ext ? 9 : 4);
+    if (cont == 0 || cont == 3) { const std::vector<FE>& cin = in; c.log("  as const std::vector&"); out = Gudhi::collapse::flag_complex_collapse_edges(cin); c.count("container.vector"); }
+    else if (cont == 1) { std::list<FE> l(in.begin(), in.end()); c.log("  as std::list&"); out = Gudhi::collapse::flag_complex_collapse_edges(l); c.count("container.list"); }
+    else if (cont == 2) { std::deque<FE> d(in.begin(), in.end()); c.log("  as std::deque&"); out = Gudhi::collapse::flag_complex_collapse_edges(d); c.count("container.deque"); }
+    else if constexpr (Ext) {
+    if (cont == 4 || cont == 8) {
+      auto identity = [](auto const& d) { return d; };
+      // what the Python binding does: an rvalue vector (moved into the sorter, no copy) and the two-argument overload
+      std::vector<FE> copy = in; c.log("  as std::vector&& with the two-argument overload (identity)");
+      out = Gudhi::collapse::flag_complex_collapse_edges(std::move(copy), identity); c.count("container.rvalue_vector_2arg");
+    } else if (cont == 5) {
+      // a range whose iterators yield prvalue tuples (the utilities pass boost-transformed ranges)
+      c.log("  as boost::irange | transformed (prvalue tuples)");
+      auto rg = boost::irange<std::size_t>(0, in.size()) |
+                boost::adaptors::transformed([&in](std::size_t k) { return std::make_tuple(std::get<0>(in[k]), std::get<1>(in[k]), std::get<2>(in[k])); });
+      out = Gudhi::collapse::flag_complex_collapse_edges(rg); c.count("container.prvalue_transformed");
+    } else if (cont == 6) {
+      auto identity = [](auto const& d) { return d; };
+      std::list<FE> l(in.begin(), in.end()); c.log("  as std::list&& with the two-argument overload (identity)");
+      out = Gudhi::collapse::flag_complex_collapse_edges(std::move(l), identity); c.count("container.rvalue_list_2arg");
+    } else {
+      // what Simplex_tree_interface::collapse_edges does
+      std::vector<FE> copy = in; c.log("  as std::vector&& with the one-argument overload");
+      out = Gudhi::collapse::flag_complex_collapse_edges(std::move(copy)); c.count("container.rvalue_vector_1arg");
+    }
+    }
     c.count("call.total");
     c.count(std::string("call.build.") + C12_BUILD_NAME);
+    if (std::is_integral<Filt>::value) c.count(std::string("call.integral_values.build.") + C12_BUILD_NAME);
     if (in.size() >= 500) c.count(std::string("call.edges_ge_500.build.") + C12_BUILD_NAME);
     {
       std::ostringstream o; o.precision(17);
@@ -374,13 +508,27 @@ inline std::vector<long> random_labels(vh::Rng& r, int n, long max_label, bool& 
   return lab;
 }
 
+// n distinct labels that contain the largest value of the vertex type; the others are near the top or near 0
+inline std::vector<long> top_labels(vh::Rng& r, int n, long type_max) {
+  std::set<long> ls; ls.insert(type_max);
+  const long span = std::min<long>(type_max, 120);
+  while ((int)ls.size() < n) ls.insert(r.chance(1, 2) ? type_max - (long)r.range(1, span) : (long)r.range(0, span));
+  std::vector<long> lab(ls.begin(), ls.end());
+  r.shuffle(lab);
+  return lab;
+}
+
 // ------------------------------------------------------------------ small-graph case
-template <class Vertex, class Filt>
-void small_case(vh::Case& c, const char* vtype) {
+// special: the weights are redrawn from the special floating-point values (Filt = double only)
+template <class Vertex, class Filt, bool Ext = false>
+void small_case(vh::Case& c, const char* vtype, bool special = false) {
   vh::Rng& r = c.rng;
   Graph g;
-  gen_small(r, g, c.thorough && r.chance(1, 3) ? 11 : 10);
+  gen_small(r, g, c.thorough && r.chance(1, 3) ? 11 : 10, !std::is_integral<Filt>::value);
   if (g.n > 10 && g.nedges() > 46) { c.count("skip.too_dense_11"); return; }
+  if (special) { int cls = respecialize(r, g); c.count(std::string("case.special.") + kSpecialKinds[cls]); c.log(std::string("special weights: ") + kSpecialKinds[cls]); count_special_weights(c, g); }
+  fit_weights<Filt>(g);
+  if (std::is_integral<Filt>::value) { c.count("case.integral_values"); c.count(std::string("case.integral_values.") + TypeName<Filt>::get()); if (g.nedges() && g.min_edge() < 0) c.count("case.integral_values.negative"); }
   int vmode = assign_vertex_values(r, g);
   const bool ties = g.has_ties();
   c.count(std::string("case.kind.") + g.kind);
@@ -410,16 +558,26 @@ void small_case(vh::Case& c, const char* vtype) {
   c.count("oracle.simplices", din.nsimplices);
   count_diagram(c, din);
 
-  std::string sigbase = std::string("vtype=") + vtype + ",ties=" + (ties ? "1" : "0");
+  std::string sigbase = sig_base<Filt>(vtype, ties);
   bool changed = false, any_delayed = false, any_removed = false;
   Graph cur = g; Diagrams dcur = din;
   const int ncalls = 2;
+  // labels at the top of the vertex type: always possible for 1-byte types; for 2-byte types only where the neighbour table is
+  // not a dense (max label + 1)^2 array
+  const long type_max = (long)std::numeric_limits<Vertex>::max();
+  const bool top_ok = sizeof(Vertex) == 1 || (sizeof(Vertex) == 2 && !kDenseBuild);
   for (int k = 0; k < ncalls; ++k) {
     bool sparse = false;
-    std::vector<long> lab = random_labels(r, cur.n, sizeof(Vertex) == 2 ? 300 : 60, sparse);
-    c.count(sparse ? "numbering.sparse" : "numbering.compact");
+    std::vector<long> lab;
+    if (top_ok && r.chance(1, sizeof(Vertex) == 1 ? 2 : 4)) {
+      lab = top_labels(r, cur.n, type_max);
+      c.count("numbering.top_of_type"); c.count(std::string("numbering.top_of_type.") + vtype);
+    } else {
+      lab = random_labels(r, cur.n, sizeof(Vertex) == 2 ? 300 : 60, sparse);
+      c.count(sparse ? "numbering.sparse" : "numbering.compact");
+    }
     Graph outg; CallStats st;
-    if (!Driver<Vertex, Filt>::call(c, cur, lab, sigbase, outg, st)) return;
+    if (!Driver<Vertex, Filt, Ext>::call(c, cur, lab, sigbase, outg, st)) return;
     Diagrams dout; bool agree2 = true;
     diagrams_of_graph(outg, dout, (size_t)-1, &agree2);
     if (!agree2) { c.violation("harness.oracle_mismatch", "clique_enumerators_disagree", "oracle/flag.h and the recursive enumerator disagree (harness bug)"); return; }
@@ -491,6 +649,8 @@ void medium_case(vh::Case& c, const char* vtype) {
   // extra edges (early or late) create dominated configurations and temporary fillings
   int extra = (int)r.below((uint64_t)g.n);
   for (int e = 0; e < extra; ++e) { int i = (int)r.below(g.n), j = (int)r.below(g.n); if (i != j && !g.has(i, j)) g.set(i, j, W.draw(r) + (r.chance(1, 2) ? 2.0 : 0.0)); }
+  fit_weights<Filt>(g);
+  if (std::is_integral<Filt>::value) { c.count("case.integral_values"); c.count(std::string("case.integral_values.") + TypeName<Filt>::get()); }
   int vmode = assign_vertex_values(r, g);
   const bool ties = g.has_ties();
   c.count(std::string("case.kind.") + g.kind);
@@ -507,7 +667,7 @@ void medium_case(vh::Case& c, const char* vtype) {
   c.count("case.clique." + vh::str(din.clique));
   c.count("oracle.simplices", din.nsimplices);
   count_diagram(c, din);
-  std::string sigbase = std::string("vtype=") + vtype + ",ties=" + (ties ? "1" : "0");
+  std::string sigbase = sig_base<Filt>(vtype, ties);
   bool sparse = false;
   std::vector<long> lab = random_labels(r, g.n, 400, sparse);
   c.count(sparse ? "numbering.sparse" : "numbering.compact");
@@ -524,8 +684,8 @@ void medium_case(vh::Case& c, const char* vtype) {
 }
 
 // ------------------------------------------------------------------ big-graph case (> 500 edges: the parallel sort path)
-inline size_t add_component(vh::Rng& r, Graph& big, int& next, int max_n) {
-  Graph s; gen_small(r, s, max_n);
+inline size_t add_component(vh::Rng& r, Graph& big, int& next, int max_n, bool allow_inf) {
+  Graph s; gen_small(r, s, max_n, allow_inf);
   size_t added = 0;
   for (int i = 0; i < s.n; ++i) for (int j = i + 1; j < s.n; ++j) if (s.has(i, j)) { big.set(next + i, next + j, s.w[i][j]); ++added; }
   next += s.n;
@@ -546,7 +706,7 @@ void big_case(vh::Case& c, const char* vtype) {
     g.init(maxv);
     int next = 0;
     size_t ne = 0;
-    while (ne < target && next + 8 <= maxv) ne += add_component(r, g, next, 8);
+    while (ne < target && next + 8 <= maxv) ne += add_component(r, g, next, 8, !std::is_integral<Filt>::value);
     // shrink to the used vertices
     Graph h; h.init(next);
     for (int i = 0; i < next; ++i) for (int j = i + 1; j < next; ++j) if (g.has(i, j)) h.set(i, j, g.w[i][j]);
@@ -570,6 +730,8 @@ void big_case(vh::Case& c, const char* vtype) {
     size_t pairs = (size_t)n * (n - 1) / 2;
     gen_rips(r, g, (int)r.range(2, 4), (int)r.range(4, 9), std::min(0.95, (double)target / (double)pairs), 0.0);
   }
+  fit_weights<Filt>(g);
+  if (std::is_integral<Filt>::value) { c.count("case.integral_values"); c.count(std::string("case.integral_values.") + TypeName<Filt>::get()); }
   int vmode = assign_vertex_values(r, g);
   const bool ties = g.has_ties();
   c.count(std::string("case.kind.") + g.kind);
@@ -587,7 +749,7 @@ void big_case(vh::Case& c, const char* vtype) {
   c.count("case.clique." + vh::str(din.clique));
   c.count("oracle.simplices", din.nsimplices);
   count_diagram(c, din);
-  std::string sigbase = std::string("vtype=") + vtype + ",ties=" + (ties ? "1" : "0");
+  std::string sigbase = sig_base<Filt>(vtype, ties);
   bool sparse = false;
   std::vector<long> lab = random_labels(r, g.n, sizeof(Vertex) == 2 ? 2000 : 900, sparse);
   c.count(sparse ? "numbering.sparse" : "numbering.compact");
@@ -599,6 +761,88 @@ void big_case(vh::Case& c, const char* vtype) {
   if (st.delayed) c.count("case.some_delayed");
   if (st.removed) c.count("case.some_removed");
   if ((st.delayed || st.removed) && din.clique >= 3) c.nontrivial(graph_hash(g));
+  c.sample("{\"history\":\"" + vh::jesc(vh::G().history.substr(0, 600)) + "\"}");
+}
+
+// ------------------------------------------------------------------ mid-size dense graphs (12..40 vertices)
+// complete graphs, G(n, p >= 1/2) and Rips graphs of real points: the clique number is far above what the full oracle can
+// enumerate, so the comparison is restricted to H_0..H_D computed from the (D+1)-skeleton (D = 2 up to 22 vertices, D = 1
+// from 23 vertices on; from 33 vertices on a complete graph has >= 500 edges and the TBB sort really is parallel).
+template <class Vertex, class Filt>
+void mid_case(vh::Case& c, const char* vtype) {
+  vh::Rng& r = c.rng;
+  Graph g;
+  const unsigned size_class = (unsigned)r.below(6);  // 0..2: 12..22 vertices, 3: 23..32, 4..5: 33..40
+  const bool large = size_class >= 4;
+  const int D = size_class >= 3 ? 1 : 2;
+  const int n = large ? (int)r.range(33, 40) : size_class == 3 ? (int)r.range(23, 32) : (int)r.range(12, 22);
+  g.init(n);
+  unsigned kind = (unsigned)r.below(4);
+  if (kind == 0) {
+    g.kind = "mid_complete";
+    gen_complete(r, g, random_weights(r, r.chance(1, 3) ? 1 : (r.chance(1, 2) ? 0 : 4)));
+  } else if (kind == 1) {
+    g.kind = "mid_gnp_dense";
+    unsigned num = (unsigned)r.range(50, 95);
+    gen_sparse(r, g, random_weights(r, r.chance(1, 3) ? 1 : (r.chance(1, 2) ? 0 : 4)), num, 100);
+  } else {
+    // points with real coordinates in [0,1]^d, Euclidean distances (square roots: not dyadic), complete or thresholded
+    g.kind = kind == 2 ? "mid_rips_real_thresholded" : "mid_rips_real_complete";
+    const int pd = (int)r.range(1, 3);
+    std::vector<std::vector<double>> pts(n, std::vector<double>(pd));
+    for (auto& p : pts) for (auto& x : p) x = r.unit();
+    const double thr = kind == 2 ? 0.3 + 0.7 * r.unit() : 1e9;
+    for (int i = 0; i < n; ++i) for (int j = i + 1; j < n; ++j) {
+      double d = 0; for (int k = 0; k < pd; ++k) d += (pts[i][k] - pts[j][k]) * (pts[i][k] - pts[j][k]);
+      d = std::sqrt(d);
+      if (d <= thr) g.set(i, j, d);
+    }
+  }
+  fit_weights<Filt>(g);
+  if (g.nedges() == 0) { c.count("skip.mid_no_edges"); return; }
+  int vmode = assign_vertex_values(r, g);
+  const bool ties = g.has_ties();
+  c.count(std::string("case.kind.") + g.kind);
+  c.count("case.vmode." + vh::str(vmode));
+  c.count(large ? "case.mid.n_33_40.h0_h1" : D == 1 ? "case.mid.n_23_32.h0_h1" : "case.mid.n_12_22.h0_h2");
+  if (ties) c.count("case.with_ties");
+  if (g.nedges() >= 500) c.count("case.mid.edges_ge_500");
+  {
+    std::ostringstream o; o.precision(17);
+    o << "graph kind=" << g.kind << " n=" << g.n << " edges=" << g.nedges() << " homology compared in dimensions 0.." << D << " vertex_values=";
+    for (int i = 0; i < g.n; ++i) o << (i ? "," : "") << g.vval[i];
+    c.log(o.str());
+  }
+  Diagrams din;
+  diagrams_of_graph(g, din, (size_t)-1, nullptr, D);
+  c.count("oracle.simplices", din.nsimplices);
+  c.count("oracle.mid.simplices", din.nsimplices);
+  if (din.clique == D + 2) c.count("case.mid.skeleton_truncated");
+  count_diagram(c, din);
+  std::string sigbase = sig_base<Filt>(vtype, ties) + ",mid_dense";
+  Graph cur = g; Diagrams dcur = din;
+  bool changed = false, any_delayed = false, any_removed = false;
+  const int ncalls = r.chance(1, 3) ? 2 : 1;
+  for (int k = 0; k < ncalls; ++k) {
+    if (k) { c.log("second pass on the returned graph"); c.count("call.second_pass"); c.count("call.mid.second_pass"); }
+    bool sparse = false;
+    std::vector<long> lab = random_labels(r, cur.n, 200, sparse);
+    c.count(sparse ? "numbering.sparse" : "numbering.compact");
+    Graph outg; CallStats st;
+    if (!Driver<Vertex, Filt>::call(c, cur, lab, sigbase, outg, st)) return;
+    c.count("call.mid");
+    Diagrams dout;
+    diagrams_of_graph(outg, dout, (size_t)-1, nullptr, D);
+    if (!compare_diagrams(c, dcur, dout, sigbase, st, cur)) return;
+    if (st.delayed || st.removed) changed = true;
+    if (st.delayed) any_delayed = true;
+    if (st.removed) any_removed = true;
+    cur = outg; dcur = dout;
+  }
+  if (any_delayed) c.count("case.some_delayed");
+  if (any_removed) c.count("case.some_removed");
+  if (any_removed) c.count("case.mid.some_removed");
+  if (changed && din.clique >= 3) c.nontrivial(graph_hash(g));
   c.sample("{\"history\":\"" + vh::jesc(vh::G().history.substr(0, 600)) + "\"}");
 }
 
